@@ -43,4 +43,5 @@ func runC07(c *core.Ctx) {
 	h.applyRequestsEndAtCommit("C07.4b apply-view")
 	h.singleApplier("C07.4c single-applier")
 	h.releaseEmptiesHolders("C07.5 release-empties-queue")
+	h.taskConstructors("C07.6 task-constructors")
 }
